@@ -114,8 +114,18 @@ func (l *listener) listenLoop() {
 				conn := newStreamWrapper(stream, stream.LocalAddr(), stream.RemoteAddr(), wg)
 				select {
 				case <-l.closeCh:
+					// nobody will ever accept this conn: release its session reference
+					_ = conn.Close()
 					return
 				case l.backlog <- conn:
+					// select picks randomly when both cases are ready, so the conn may have been
+					// queued after listener.Close drained the backlog: drain again in that case
+					select {
+					case <-l.closeCh:
+						l.drainBacklog()
+						return
+					default:
+					}
 				}
 			}
 		}()
@@ -143,6 +153,8 @@ func (l *listener) Close() (err error) {
 	if swapped {
 		close(l.closeCh)
 	}
+	// conns that were never accepted would hold their session reference forever
+	l.drainBacklog()
 	// closed and clear sessions to avoid leaking
 	l.mu.Lock()
 	for _, wg := range l.sessions {
@@ -151,6 +163,18 @@ func (l *listener) Close() (err error) {
 	l.sessions = map[*Session]*sync.WaitGroup{}
 	l.mu.Unlock()
 	return
+}
+
+// drainBacklog closes every conn still waiting in the backlog (never blocks)
+func (l *listener) drainBacklog() {
+	for {
+		select {
+		case conn := <-l.backlog:
+			_ = conn.Close()
+		default:
+			return
+		}
+	}
 }
 
 // Addr is forwarded to the raw listener
